@@ -164,10 +164,27 @@ func indirectToStringerOrError(a interface{}) interface{} {
 		return nil
 	}
 	v := reflect.ValueOf(a)
-	for !v.Type().Implements(fmtStringerType) && !v.Type().Implements(errorType) && v.Kind() == reflect.Ptr && !v.IsNil() {
+	var seen []uintptr
+	for !v.Type().Implements(fmtStringerType) && !v.Type().Implements(errorType) && v.Kind() == reflect.Ptr && !v.IsNil() && !SeenPointer(&seen, v) {
 		v = v.Elem()
 	}
 	return v.Interface()
+}
+
+// SeenPointer reports whether the pointer v was passed to it before with the same seen, and
+// records it. Loops that dereference pointers use it to stop at a cycle, which only pointers
+// to pointers can form (`type P *P; var p P; p = &p`).
+func SeenPointer(seen *[]uintptr, v reflect.Value) bool {
+	if v.Type().Elem().Kind() != reflect.Ptr {
+		return false
+	}
+	for _, p := range *seen {
+		if p == v.Pointer() {
+			return true
+		}
+	}
+	*seen = append(*seen, v.Pointer())
+	return false
 }
 
 // Indirect returns the value, after dereferencing as many times
@@ -181,7 +198,8 @@ func Indirect(a interface{}) interface{} {
 		return a
 	}
 	v := reflect.ValueOf(a)
-	for v.Kind() == reflect.Ptr && !v.IsNil() {
+	var seen []uintptr
+	for v.Kind() == reflect.Ptr && !v.IsNil() && !SeenPointer(&seen, v) {
 		v = v.Elem()
 	}
 	return v.Interface()
